@@ -85,6 +85,7 @@ type Contract struct {
 	Line        int
 	Trusted     bool
 	Proof       string               // lemma proof hint: "", "induction <var>"
+	Internal    []*Clause            // postconditions over the function's locals at each return; checked, never exported to callers
 	Globals     []string             // package-level tables whose dumped contents are assumed at entry ("Name" or "pkg.Name")
 	Asserts     map[string][]*Clause // "callee#ordinal" -> assertions checked just before that call
 }
@@ -220,7 +221,7 @@ func (eng *Engine) typeID(t types.Type) int {
 var clauseKeywords = map[string]bool{
 	"spec": true, "pred": true, "func": true, "lemma": true, "mode": true, "requires": true, "ensures": true,
 	"modifies": true, "let": true, "loop": true, "use": true, "table": true, "property": true, "opt": true,
-	"trusted": true, "iface": true, "field": true, "proof": true, "abstract": true, "globals": true, "assert": true,
+	"trusted": true, "iface": true, "field": true, "proof": true, "abstract": true, "globals": true, "assert": true, "internal": true,
 }
 
 type rawClause struct {
@@ -409,6 +410,10 @@ func (eng *Engine) loadContractFile(pkg *packages.Package, file string) error {
 			case "ensures":
 				if cl := parseE(rc, rc.text); cl != nil {
 					cur.Ensures = append(cur.Ensures, cl)
+				}
+			case "internal":
+				if cl := parseE(rc, rc.text); cl != nil {
+					cur.Internal = append(cur.Internal, cl)
 				}
 			case "use":
 				if cl := parseE(rc, rc.text); cl != nil {
